@@ -3,4 +3,6 @@
 //! current tree, so that macro *output* is analysed.
 #![allow(dead_code, unused_variables, clippy::all)]
 
+pub mod c10;
 pub mod c19;
+pub mod probe;
